@@ -53,3 +53,38 @@ Section Read.
     | DPanic _ => Crash pPanicStmt
     end.
 End Read.
+
+(* ---------------------------------------------------------------- phase 7: allocation census
+   One row per allocation whose size is an expression (make with a length / capacity, reflect.MakeSlice,
+   Grow, append inside a counted loop) in the packages of the site tables; the translator
+   (tools/gotrans/c08.go genC08alloc) fills the table c08_alloc_sites of Gen/C08gen.v. *)
+Inductive aorigin :=
+| OLocal                  (* constants, len / cap of a value that exists, fields of the receiver *)
+| OParam                  (* mentions a parameter of the function (and no variable read from the peer) *)
+| OPeer.                  (* mentions a variable that a ReadFrom / Scan call of the function filled earlier *)
+
+Inductive abound :=
+| BNone
+| BConst (test : string)  (* `v < K` holds at the allocation, K a constant expression *)
+| BAvail (test : string)  (* `v <= len(..)` / `.Len()`: bounded by what is present *)
+| BLocal (test : string)  (* `v <= e`, e over values NOT read from the peer in this function (receiver fields: 1<<l.bits) *)
+| BCase (test : string)   (* the allocation sits in a case clause of a switch on v with constant labels *)
+| BMin (size : string)    (* the size expression is min(.., K) *)
+| BRead (call : string).  (* append in a loop: a ReadFrom / Scan call precedes it in the body, one element per read *)
+
+Record arow := mkARow {
+  a_site : string;        (* dir/file.go:Func#k *)
+  a_kind : string;        (* make, append, reflect.MakeSlice, Grow *)
+  a_text : string;        (* the call as written *)
+  a_size : string;        (* the size (make: the larger of length and capacity; append: the trip count) *)
+  a_origin : aorigin;
+  a_upper : abound;
+  a_lower : string        (* the test that excludes a negative size, "" when there is none *)
+}.
+
+Definition a_peer (r : arow) : bool := match a_origin r with OPeer => true | _ => false end.
+Definition a_upper_ok (r : arow) : bool := match a_upper r with BNone => false | _ => true end.
+Definition a_lower_ok (r : arow) : bool :=
+  match a_upper r with BRead _ => true | _ => negb (String.eqb (a_lower r) "") end.
+(* a peer-sized allocation is bounded when a test bounds it from above AND a test excludes a negative size *)
+Definition a_bounded (r : arow) : bool := negb (a_peer r) || (a_upper_ok r && a_lower_ok r).
